@@ -174,6 +174,9 @@ static std::vector<jsoncons::csv::csv_options> csv_option_sets() {
         jsoncons::csv::csv_options o; o.assume_header(h != 0); o.mapping_kind(m); v.push_back(o);
     }
     { jsoncons::csv::csv_options o; o.assume_header(false); o.mapping_kind(jsoncons::csv::csv_mapping_kind::n_rows); o.trim(true); o.ignore_empty_lines(false); o.comment_starter('#'); v.push_back(o); }
+    // fields split into subfields (nested arrays inside a record)
+    { jsoncons::csv::csv_options o; o.assume_header(false); o.mapping_kind(jsoncons::csv::csv_mapping_kind::n_rows); o.subfield_delimiter(';'); v.push_back(o); }
+    { jsoncons::csv::csv_options o; o.assume_header(true); o.mapping_kind(jsoncons::csv::csv_mapping_kind::n_objects); o.subfield_delimiter(';'); v.push_back(o); }
     return v;
 }
 static void check_csv(const std::string& t, int oi, const jsoncons::csv::csv_options& opt) {
@@ -183,6 +186,11 @@ static void check_csv(const std::string& t, int oi, const jsoncons::csv::csv_opt
     std::string fmt = "csv" + std::to_string(oi);
     Outcome cref = safe([&] { std::error_code ec; csv_string_cursor c(t, opt, ec); return drain(c, ec, -1); }); ++g_eval;
     if (cref != ref) report(fmt, "cursor-vs-reader", b, cref, ref);
+    // read_to at every event index reproduces the event sequence of plain stepping
+    // (texts with quote characters are left out here: the parser's end-of-input handling of open quoted fields is the recorded finding F70)
+    if (t.find('"') == std::string::npos)
+    { int nev = 0; for (char ch : cref.ev) if (ch == ' ') ++nev; if (!cref.ev.empty()) ++nev;
+      for (int rt = 0; rt < nev && rt < 10; ++rt) { Outcome o = safe([&] { std::error_code ec; csv_string_cursor c(t, opt, ec); return drain(c, ec, rt); }); ++g_eval; if (o != cref) { report(fmt, "readto" + std::to_string(rt), b, o, cref); break; } } }
     for (size_t k = 1; k <= t.size() + 1; ++k) {
         { Outcome o = safe([&] { std::istringstream is(t); Rec rec; std::error_code ec; csv_stream_reader rd(jsoncons::stream_source<char>(is, k), rec, opt); rd.read(ec); return Outcome{rec.ev, errs(ec)}; }); ++g_eval; if (o != ref) report(fmt, "stream-reader" + std::to_string(k), b, o, ref); }
         { Outcome o = safe([&] { std::istringstream is(t); std::error_code ec; csv_stream_cursor c(jsoncons::stream_source<char>(is, k), opt, ec); return drain(c, ec, -1); }); ++g_eval; if (o != cref) report(fmt, "stream-cursor" + std::to_string(k), b, o, cref); }
@@ -190,7 +198,7 @@ static void check_csv(const std::string& t, int oi, const jsoncons::csv::csv_opt
     if (ref.err.empty() && !ref.ev.empty()) { ++g_nontrivial; if (g_nontrivial % 4001 == 1) out().sample("csv opts#" + std::to_string(oi) + " " + t + " -> " + ref.ev); }
     out().cls(ref.err.empty() ? "csv:ok" : "csv:err:" + ref.err);
 }
-static const std::vector<std::string> SIGMA_CSV = {"a", "1", ",", "\"", "\n", "\r", " ", "#"};
+static const std::vector<std::string> SIGMA_CSV = {"a", "1", ",", "\"", "\n", "\r", " ", "#", ";"};
 
 static void run_csv(int L, int slice, int nslices) {
     auto opts = csv_option_sets();
